@@ -2,7 +2,7 @@
 import json, os, re
 from ..engine import rule, ok, bad, missing, VERIF
 from ..sym import show, StaticEnv
-from ..table import render
+from ..table import render, summarize, strip_ver
 from ..facts import callee, strip_lt
 from .. import setexpr as SX
 from ..dom import call_sites
@@ -41,8 +41,10 @@ def table_category(ctx):
             default.append(r)
         else:
             out.append(bad("arm|multi", "a path passes several positive name tests: %s" % pos, b.loc()))
+    # the private lookup answers Result (Err = unknown name) or Option (None = unknown name, its caller builds the error)
+    as_option = bool(default) and all(x == "Option::None" for x in default)
     for name, long in sorted(want.items()):
-        exp = "Result::Ok{0: GeneralCategoryGroup::%s}" % long
+        exp = ("Option::Some{0: GeneralCategoryGroup::%s}" if as_option else "Result::Ok{0: GeneralCategoryGroup::%s}") % long
         g = got.get(name)
         if g is None:
             out.append(bad("name|" + name, "category name %s is not accepted (the property requires \\p{%s} = General_Category %s)" % (name, name, long), b.loc()))
@@ -54,9 +56,29 @@ def table_category(ctx):
         out.append(bad("extra|" + name, "category name %s is accepted but is not one of the 37 XSD category names (maps to %s)" % (name, sorted(got[name])), b.loc()))
     if len(default) == 1 and default[0].startswith("Result::Err{0: Error::syntax("):
         out.append(ok("default-rejects"))
+    elif as_option and len(default) == 1 and _none_becomes_syntax(ctx, "category::category_group", r"get_category_group\(a1\)"):
+        out.append(ok("default-rejects"))
     else:
         out.append(bad("default-rejects", "an unknown category name must be rejected with Error::Syntax; default arm yields %s" % default, b.loc()))
     return out
+
+
+def _none_becomes_syntax(ctx, caller, call):
+    """in `caller`, every path on which `call` (a regular expression over the rendered call) answered None returns
+    Err(Error::Syntax)"""
+    b = ctx.body(caller)
+    if b is None:
+        return False
+    seen = False
+    for p in ctx.walk(b).paths:
+        gs, r = summarize(p)
+        gs = [strip_ver(g) for g in gs]
+        r = strip_ver(r)
+        if any(re.match(r"^variant\((?:%s)\)=None$" % call, g) for g in gs):
+            seen = True
+            if not r.startswith("Result::Err{0: Error::syntax("):
+                return False
+    return seen
 
 
 @rule("TABLE-CATEGORY-USE", ["C10"], floor=3)
@@ -74,7 +96,10 @@ def table_category_use(ctx):
     w = ctx.walk(b)
     rs = sorted(render(p.ret) for p in w.paths)
     exp = sorted(["Result::Ok{0: builder_for_group(try(get_category_group(a1)) as Continue.0)}", "propagate(try(get_category_group(a1)) as Break.0)"])
-    if rs == exp:
+    rows = sorted((tuple(strip_ver(g) for g in summarize(p)[0]), strip_ver(summarize(p)[1])) for p in w.paths)
+    G = "get_category_group(a1)"
+    opt_form = len(rows) == 2 and rows[0][0] == ("variant(%s)=None" % G,) and rows[0][1].startswith("Result::Err{0: Error::syntax(") and rows[1] == (("variant(%s)=Some" % G,), "Result::Ok{0: builder_for_group(%s as Some.0)}" % G)
+    if rs == exp or opt_form:
         out.append(ok("category_group|ok"))
         out.append(ok("category_group|err-propagated"))
     else:
@@ -237,8 +262,11 @@ def block_key(ctx):
             rs[str(g)] = render(p.ret)
         exp_ok = "Result::Ok{0: HashMap::get(a1.blocks, a2) as Some.0}"
         vals = sorted(rs.values())
+        LOOKUP = r"BlockLookup::lookup\((?:block_lookup\(\)|BlockLookup::new\(\)|BlockLookup::global\(\)), a1\)"
         if len(vals) == 2 and exp_ok in vals and any(v.startswith("Result::Err{0: Error::syntax(") for v in vals):
             out.append(ok("lookup"))
+        elif vals == ["HashMap::get(a1.blocks, a2)"] and _none_becomes_syntax(ctx, "category::block", LOOKUP):
+            out.append(ok("lookup"))  # the lookup answers Option, block() words the rejection
         else:
             out.append(bad("lookup", "lookup must return the block stored under the given name or Error::Syntax; found %s" % vals, lb.loc()))
     return out
@@ -273,14 +301,17 @@ def table_block_use(ctx):
                 out.append(bad("PrivateUse", "\\p{IsPrivateUse} must be %s; found %s %s" % (SX.fmt(exp), SX.fmt(retlocal) if retlocal else retlocal, it.unknown), b.loc()))
         else:
             r = render(p.ret)
-            if r.startswith("propagate("):
+            LK = r"BlockLookup::lookup\((?:block_lookup\(\)|BlockLookup::new\(\)|BlockLookup::global\(\)), a1\)"
+            none_here = any(re.match(r"^variant\(%s\)$" % LK, strip_ver(a)) and o == ("variant", "None") for a, o in [(render(a_), o_) for a_, o_ in p.guards])
+            if r.startswith("propagate(") or (none_here and strip_ver(r).startswith("Result::Err{0: Error::syntax(")):
                 seen.add("err")
                 out.append(ok("lookup-error-propagated"))
                 continue
             seen.add("blk")
-            BLK = "try(BlockLookup::lookup(block_lookup(), a1)) as Continue.0"
-            exp = "[%s.start..=%s.end]" % (BLK, BLK)
-            if retlocal is not None and retlocal[0] == "sym" and retlocal[1] == exp and not it.unknown:
+            got = retlocal[1] if retlocal is not None and retlocal[0] == "sym" else ""
+            mm = re.match(r"^\[(.*)\.start\.\.=(.*)\.end\]$", got)
+            blk_ok = bool(mm) and mm.group(1) == mm.group(2) and re.match(r"^(?:try\(%s\) as Continue\.0|%s as Some\.0|try\(Option::ok_or(?:_else)?\(%s, closure [^()]*\)\) as Continue\.0)$" % (LK, LK, LK), mm.group(1)) is not None
+            if blk_ok and not it.unknown:
                 out.append(ok("block-range"))
             else:
                 out.append(bad("block-range", "\\p{IsB} must add exactly B.start..=B.end of the looked-up block; found %s %s" % (SX.fmt(retlocal) if retlocal else retlocal, [m for _, m in it.unknown]), b.loc()))
